@@ -5,7 +5,8 @@ TYPES = {1: "CONNECT", 2: "CONNACK", 3: "PUBLISH", 4: "PUBACK", 5: "PUBREC", 6: 
 OPS = {0: "send", 1: "recv", 2: "timer", 3: "notify_closed", 4: "set_pingreq_send_interval", 5: "set_pingresp_recv_timeout",
        6: "set_offline_publish", 7: "set_auto_pub_response", 8: "set_auto_ping_response", 9: "set_auto_map_topic_alias_send",
        10: "set_auto_replace_topic_alias_send", 11: "acquire_packet_id", 12: "register_packet_id", 13: "release_packet_id",
-       14: "erase_stored_publish", 15: "restore_packets", 16: "restore_qos2_publish_handled", 17: "regulate_for_store"}
+       14: "erase_stored_publish", 15: "restore_packets", 16: "restore_qos2_publish_handled", 17: "regulate_for_store",
+       18: "checked_send"}
 TIMERS = ["PingreqSend", "PingreqRecv", "PingrespRecv"]
 
 
@@ -100,7 +101,7 @@ def digest(r):
 def op(r):
     t = r.get()
     name = OPS.get(t, t)
-    if t in (0, 17):
+    if t in (0, 17, 18):
         p = pkt(r); r.take(r.get())
         return (t, name, p)
     if t == 1:
